@@ -21,8 +21,9 @@ def E(name, params, ret, body, api="", group="prop"):
 class Ctx:
     """one build (configuration + extra wrappers) and cached analyses"""
 
-    def __init__(self, config, extra=(), only=None):
+    def __init__(self, config, extra=(), only=None, lowbits_canon=False):
         self.config = config
+        self.lowbits_canon = lowbits_canon
         self.built = runner.build(config, extra_entries=list(extra), only=only)
         self.cache = {}
 
@@ -35,7 +36,8 @@ class Ctx:
             raise Broken("ANALYSIS-BROKEN: wrapper %s is not in the build (anchor vanished?)" % name)
         boxes = boxes or runner.default_boxes(ent)
         res, alarms, stats, an = runner.analyze_entry(self.built, name, boxes=boxes, rnd=random.Random(seed),
-                                                      refine_depth=1 if refine else 0, want_paths=True)
+                                                      refine_depth=1 if refine else 0, want_paths=True,
+                                                      opts={"lowbits_canon": self.lowbits_canon})
         r = Run(self, name, ent, boxes, res, alarms, stats, an)
         self.cache[key] = r
         return r
